@@ -13,6 +13,9 @@ def SPEC(tier):
     # targets do not apply; every relation that is stated on named components / through wxyz() must still hold in that build
     stages.append(Stage('xyzw-ctor-order', SRCS, flags=['-DGLM_FORCE_QUAT_DATA_XYZW', '-DC04_CFG="xyzw-ctor-order"'], scale=0.3,
                         only='rotate-vector|quat-cast|product|angle-axis|euler-quat|two-vectors|gtx-rotate-vector|exp-log-pow|quat-look-at|dual-quaternion'))
+    # both macros at once: memory order w,x,y,z and constructor order x,y,z,w are independent switches
+    stages.append(Stage('wxyz+xyzw-ctor-order', SRCS, flags=['-DGLM_FORCE_QUAT_DATA_WXYZ', '-DGLM_FORCE_QUAT_DATA_XYZW', '-DC04_CFG="wxyz+xyzw-ctor-order"'], scale=0.3,
+                        only='rotate-vector|quat-cast|product|angle-axis|euler-quat|two-vectors|gtx-rotate-vector|exp-log-pow|quat-look-at|dual-quaternion'))
     return {'stages': stages,
             'assumptions': props.COMMON_ASSUME + [
                 'unit quaternions / unit vectors are unit after rounding each component to T; |q|^2 - 1 is measured in long double and enters every bound whose documented formula assumes |q| = 1',
